@@ -203,6 +203,10 @@ pub fn subjects() -> Vec<Subject> {
         Subject { name: "ll-dfa-memmem", pats: vec![b("abcab")], mk: Kind::LL, kind: DFA, ci: false },
         Subject { name: "lf-nnfa-ci", pats: vec![b("ab"), b("Abc"), b("b")], mk: Kind::LF, kind: NoncontiguousNFA, ci: true },
         Subject { name: "std-nnfa-empty", pats: vec![b(""), b("ab")], mk: Kind::Std, kind: NoncontiguousNFA, ci: false },
+        // shortest and longest "longest pattern" among the standard subjects
+        // (state leaking between searchers shows up when sizes differ)
+        Subject { name: "std-cnfa-len1", pats: vec![b("x"), b("y")], mk: Kind::Std, kind: ContiguousNFA, ci: false },
+        Subject { name: "std-dfa-len10", pats: vec![b("abcdefghij"), b("xy")], mk: Kind::Std, kind: DFA, ci: false },
     ]
 }
 
@@ -307,7 +311,7 @@ pub fn run_op(ac: &AhoCorasick, s: &Subject, op: usize) -> String {
                 let mut big = vec![b'-'; n];
                 let p0 = &s.pats[0];
                 let pl = &s.pats[s.pats.len() - 1];
-                for (k, at) in [17usize, 4090, n - 300, n - pl.len() - 1].iter().enumerate() {
+                for (k, at) in [17usize, 4090, 65536 - p0.len() / 2 - 1, n - 300, n - pl.len() - 1].iter().enumerate() {
                     let p = if k % 2 == 0 { p0 } else { pl };
                     if at + p.len() <= n {
                         big[*at..at + p.len()].copy_from_slice(p);
@@ -493,6 +497,44 @@ pub fn run(rep: &Report) -> i32 {
         }
     });
 
+    // ---- part 1b: histories across different searchers: (searcher A, op a)
+    // then (fresh searcher B, op b); B's result must not depend on A's search
+    let nsub = subs.len();
+    let xdesc = |i: usize| format!("cross-searcher histories {} -> {}", subs[i / nsub].name, subs[i % nsub].name);
+    par_for_desc(rep, nsub * nsub, &xdesc, |ix, st| {
+        let (ai, bi) = (ix / nsub, ix % nsub);
+        let (sa, sb) = (&subs[ai], &subs[bi]);
+        for opa in 0..NOPS {
+            let a = sa.build();
+            let _ = run_op(&a, sa, opa);
+            for opb in 0..NOPS {
+                // a must run again before each opb only if opb could have
+                // consumed the leaked state; re-running is cheap and keeps
+                // every pair independent
+                if opb > 0 {
+                    let _ = run_op(&a, sa, opa);
+                }
+                let bb = sb.build();
+                let got = run_op(&bb, sb, opb);
+                st.add("history_ops", 2);
+                st.add("cross_histories", 1);
+                if got != expected[bi][opb] {
+                    rep.violation(Violation {
+                        property: rep.property.clone(),
+                        what: "result-depends-on-other-searcher".into(),
+                        case: case(sb, "cross", &[opa, opb], &[]).set("first_subject", J::s(sa.name)),
+                        detail: format!(
+                            "after {} on the searcher {} {}, {} on a freshly built searcher {} {} returned {} but without the earlier search it returns {}",
+                            op_name(opa), sa.name, pats_show(&sa.pats), op_name(opb), sb.name, pats_show(&sb.pats), got, expected[bi][opb]
+                        ),
+                        tags: vec![("subject".into(), sb.name.into())],
+                    });
+                    return;
+                }
+            }
+        }
+    });
+
     // ---- part 2: interleavings of live cursors sharing one searcher
     let citems: Vec<usize> = (0..subs.len()).collect();
     let cdesc = |i: usize| format!("cursor interleavings on {}", subs[i].name);
@@ -546,9 +588,10 @@ pub fn run(rep: &Report) -> i32 {
         .set("distinct_nontrivial", J::i(rep.get("explorations_with_real_interleaving") + rep.get("histories")))
         .set("schedules", J::i(execs))
         .set("histories", J::i(rep.get("histories")))
+        .set("cross_searcher_histories", J::i(rep.get("cross_histories")))
         .set("cursor_interleavings", J::i(rep.get("cursor_interleavings")))
         .set("rule", J::s(format!(
-            "7 searchers (DFA / cNFA / nNFA; memmem, start-byte, rare-byte, packed prefilters; case folding; empty pattern) x 15 operations. (1) histories: every operation sequence of length <= {} on one searcher; (2) every interleaving of next()/step calls on three live cursors (FindIter, OverlappingState, stream iterator) with <= {} steps each; (3) threads: every interleaving at the H3 scheduling points (head of each search-loop iteration, FindIter::next, prefilter / packed / Rabin-Karp entry) of 2 (3) operations on a shared searcher or a clone with <= {} preemptions, real OS threads under a token-passing scheduler, executions run to completion. Oracle everywhere: result == result on a never-used freshly built searcher. 'states' = complete executions (schedules + histories + cursor interleavings)",
+            "9 searchers (DFA / cNFA / nNFA; memmem, start-byte, rare-byte, packed prefilters; case folding; empty pattern; longest pattern 1..10) x 17 operations (incl. a 5000-byte haystack and a 70000-byte stream with a match across the 64 KiB buffer boundary). (1) histories: every operation sequence of length <= {} on one searcher, and every (searcher A, op) -> (fresh searcher B, op) pair; (2) every interleaving of next()/step calls on three live cursors (FindIter, OverlappingState, stream iterator) with <= {} steps each; (3) threads: every interleaving at the H3 scheduling points (head of each search-loop iteration, FindIter::next, prefilter / packed / Rabin-Karp entry) of 2 (3) operations on a shared searcher or a clone with <= {} preemptions, real OS threads under a token-passing scheduler, executions run to completion. Oracle everywhere: result == result on a never-used freshly built searcher. 'states' = complete executions (schedules + histories + cursor interleavings)",
             depth, if t { 4 } else { 3 }, bound
         )))
         .set("exhaustive", J::Bool(true))
@@ -817,6 +860,19 @@ pub fn replay(case: &J) -> i32 {
     println!("subject={} patterns={} mode={} ops={:?} schedule={:?}", s.name, pats_show(&s.pats), case.str_of("mode"), ops, schedule);
     let expected: Vec<String> = (0..NOPS).map(|op| run_op(&s.build(), &s, op)).collect();
     match case.str_of("mode").as_str() {
+        "cross" => {
+            let sa = match subs.iter().find(|x| x.name == case.str_of("first_subject")) {
+                Some(x) => x.clone(),
+                None => return 2,
+            };
+            let a = sa.build();
+            let ra = run_op(&a, &sa, ops[0]);
+            let bb = s.build();
+            let got = run_op(&bb, &s, ops[1]);
+            println!("  {} on {} -> {}", op_name(ops[0]), sa.name, ra);
+            println!("  {} on fresh {} -> {} (without the earlier search: {})", op_name(ops[1]), s.name, got, expected[ops[1]]);
+            (got != expected[ops[1]]) as i32
+        }
         "history" => {
             let ac = s.build();
             let mut bad = false;
